@@ -26,3 +26,40 @@ NATIVE.update({"math_acos": _m.acos, "math_sin": _m.sin, "math_cos": _m.cos, "ma
 axiom("pow-three-halves", {"x": "float"}, "implies(x > 0, pow(x, 3 / 2) == x * sqrt(x))", trusted=True)
 axiom("sqrt-def", {"x": "float"}, "implies(x >= 0, sqrt(x) >= 0 and sqrt(x) * sqrt(x) == x)", trusted=True)
 POW = POW + ["pow-three-halves", "sqrt-def"]
+axiom("pow-inverse2", {"x": "float", "a": "float", "b": "float"}, "implies(x > 0 and a * b == 1, pow(pow(x, a), b) == x)", trusted=True)
+axiom("pow-monotone-strict", {"x": "float", "z": "float", "y": "float"},
+      "implies(0 < x and 0 < z and y > 0, (x < z) == (pow(x, y) < pow(z, y)))", trusted=True)
+POW = POW + ["pow-inverse2", "pow-monotone-strict"]
+
+
+# ---- native-only spec functions (used in "native:" clauses; evaluated on the real objects, never by the solvers)
+def _uphill_energy(pot, separation, direction, x):
+    """Cumulative uphill energy of a radially symmetric well potential U(|s|) (minimum at r0 = pot._equilibrium_separation)
+    along s -> s - t e_d, t in [0, x]: sum over the monotone segments between the GEOMETRIC breakpoints (plane of closest
+    approach t = s_d, crossings of the sphere |s - t e_d| = r0) of max(0, U(end) - U(start))."""
+    import math
+    s = [float(c) for c in separation]
+    x = float(x)
+    r0 = float(pot._equilibrium_separation)
+    rest = sum(c * c for i, c in enumerate(s) if i != direction)
+    pts = [0.0, x]
+    if 0.0 < s[direction] < x:
+        pts.append(s[direction])
+    if r0 * r0 - rest >= 0.0:
+        h = math.sqrt(r0 * r0 - rest)
+        for t in (s[direction] - h, s[direction] + h):
+            if 0.0 < t < x:
+                pts.append(t)
+    pts = sorted(set(pts))
+
+    def U(t):
+        v = list(s)
+        v[direction] = s[direction] - t
+        return float(pot._potential(v))
+    total = 0.0
+    for a, b in zip(pts, pts[1:]):
+        total += max(0.0, U(b) - U(a))
+    return total
+
+
+NATIVE.update({"uphill_energy": _uphill_energy, "pot_energy": lambda pot, s: float(pot._potential([float(c) for c in s])), "close": lambda a, b: abs(float(a) - float(b)) <= 1e-6 * max(1.0, abs(float(a)), abs(float(b)))})
